@@ -282,3 +282,42 @@ def run_traced(tier="quick"):
     out = {"res": res, "meta": meta, "wall": time.time() - t0, "ncells": len(cells)}
     _CACHE[key] = out
     return out
+
+
+
+def run_rehash(tier="quick"):
+    """second stage: the abstract result H of every traced composition cell (generated setting + digest characters, exact
+    positions) is used as the setting of another crypt_rn call, again with read tracing"""
+    key = ("rehash", tier)
+    if key in _CACHE:
+        return _CACHE[key]
+    from . import crypt_oracle as O, unit_contracts
+    t = run_traced(tier)
+    m, info = common.prog("shared")
+    entry = common.sym(m, "crypt_rn").name
+    cells, meta = [], {}
+    for cid, c in sorted(t["res"].items()):
+        mt = t["meta"][cid]
+        for p in c["paths"]:
+            if not p["ret"].startswith("ptr:") or any(a["kind"] in O.HARD for a in p["alarms"]):
+                continue
+            ok, ln, chars = O.terminated(p)
+            if not ok or not (len(p.get("out", [])) > ln and p["out"][ln][0] == frozenset([0])):
+                continue
+            H = [s_ for s_, pr in chars]
+            rid = "R" + cid
+            cells.append(K.crypt_cell(rid, entry, b"", setting_bytes=b"", headsets=H, size=(32768, 32768), align=(0, 0)))
+            meta[rid] = {"from": cid, "H": H, "method": mt["method"], "pattern": mt["pattern"], "row": mt["row"],
+                         "phr_box": list(p["roots"][0]), "first_reads": c.get("reads", {}), "first_trace": c.get("trace", []),
+                         "first_rejections": sorted({p2.get("errno_at", "") for p2 in c["paths"] if p2["ret"] == "null"})}
+            break
+    kdf = [e for e in K.CONTRACTS["yescrypt_kdf"] if e.get("op") != "ret"] + [{"op": "ret", "lo": 0, "hi": 0}]
+    cfg = K.config(m, {"check_badsalt_chars": [{"op": "ret", "lo": 0, "hi": 0}], "yescrypt_kdf": kdf})
+    for k in unit_contracts.CONTRACTS:
+        cfg["contracts"].pop(k, None)
+    cfg["traceRegions"] = ["phrase", "setting"]
+    t0 = time.time()
+    res = xai.run_cells(info["bc"], cells, cfg, chunk=1)
+    out = {"res": res, "meta": meta, "wall": time.time() - t0, "ncells": len(cells), "first": t}
+    _CACHE[key] = out
+    return out
